@@ -139,7 +139,7 @@ PROPS = {
         "design_ref": "DESIGN.md section 6 (C03)",
         "projection": "packet sequence and left-over byte counts after every chunk",
         "mismatch_is_input": True,
-        "level_text": "Coq theorems over every decoder state reachable by any chunk history: (geometry) the result of a call is the same for every way the ring can split Peek(3); (segmentation) a call that reported need-more-data followed by more bytes behaves exactly like the call on all the bytes, and a call that produced a packet or an error produces the same with any later bytes behind it and leaves exactly those bytes; a completed frame consumes exactly its own bytes; the invariant these are stated under is preserved by every call and feed. The ring buffer itself is abstracted to its content (the third-party library is not verified); the tie runs the real Unpack on the real ring over frames x cuts (every single cut position, 1-byte chunks, random) x capacities x every start offset so each multi-byte field meets the wrap. The composition into one statement over whole chunk lists and the TCP connection level are covered by the differential run, not by a single theorem (partial).",
+        "level_text": "Coq theorems over every decoder state reachable by any chunk history: (geometry) the result of a call is the same for every way the ring can split Peek(3); (segmentation) a call that reported need-more-data followed by more bytes behaves exactly like the call on all the bytes, and a call that produced a packet or an error produces the same with any later bytes behind it and leaves exactly those bytes; a completed frame consumes exactly its own bytes; the invariant these are stated under is preserved by every call and feed. The ring buffer itself is abstracted to its content (the third-party library is not verified); the tie runs the real Unpack on the real ring over frames x cuts (every single cut position, 1-byte chunks, random) x capacities x every start offset so each multi-byte field meets the wrap. Whole runs: C03_chunking_and_geometry_irrelevant - for every byte string, every cutting into socket reads and every geometry during every read, the read loop (Model/Chunks.v run_chunks; tied by the st.chunks cases) delivers the same packets in the same order and ends the same way (and in the same state) as when the bytes arrive in one piece; C03_run_total - no run panics or needs more than length+1 calls per read. With C01_roundtrip_streaming the delivered packets are exactly the encoded ones.",
         "level_note": "Trusted: kernel, extraction, harness; ring buffer library modelled by its content + adversarial Peek split; the connection-level clause (tcpConn.reading) is exercised over loopback TCP by the client harness (C13/C12 scenarios), not proved.",
         "assumptions": ["ringbuffer v0.0.11 behaves as a byte queue (Length/Peek/Retrieve/Read/Write on the content)", "compress/gzip oracle"],
         "modelled": "Header.Unpack (v1, v2), protocolV1/V2.Unpack, Context.SetHeader/GetHeader/EndUnpack, tcpConn.readPacket; ring buffer by content",
@@ -159,7 +159,7 @@ PROPS = {
         "projection": "decode(encode p) through both entry points, and the error verdict",
         "mismatch_is_input": True,
         "timeout": {"quick": 1500, "thorough": 6000},
-        "level_text": "One-shot round trip for every packet of the valid domain, every threshold and every pooled-header state is a Coq theorem (corollary of C02's two directions, C09's round trip and the stated contract of compress/gzip); unrepresentable packets provably yield an error. The streaming entry point is covered by C03's theorems plus the differential run. Tie: the composition decode(encode p) on the implementation vs the model and vs p itself, both entry points, thresholds around the body length, 2^24 boundaries.",
+        "level_text": "One-shot round trip for every packet of the valid domain, every threshold and every pooled-header state is a Coq theorem (corollary of C02's two directions, C09's round trip and the stated contract of compress/gzip); unrepresentable packets provably yield an error. The streaming entry point: C01_roundtrip_streaming - for any list of valid packets encoded onto a connection, any cutting of the byte stream into socket reads and any ring geometry during each read, the read loop (Model/Chunks.v run_chunks, the function the st.chunks correspondence cases exercise) delivers in order exactly the packets the one-shot round trip describes, ends asking for more data, and leaves an empty buffer (from C01_stream_decodes_layout: one Unpack call on a layout frame followed by any bytes, and C03's chunking theorem). Tie: the composition decode(encode p) on the implementation vs the model and vs p itself, both entry points, thresholds around the body length, 2^24 boundaries.",
         "level_note": "Trusted: kernel, translator, extraction, harness; compress/gzip is an oracle (gz_contract: reading what was compressed yields the input and EOF), instantiated per case with the standard library's own output. Packets whose Gzip flag is preset by the caller are outside wf_packet (modelled, compared, not in the theorem).",
         "assumptions": ["compress/gzip round trip (gz_contract)", "encoding/binary.BigEndian = big-endian by div/mod", "Go int is 64-bit"],
         "modelled": "go/v1/v1.go, go/v2/v2.go Pack/UnpackBytes/Unpack; go/v1/header.go, go/v2/v2_header.go; go/gzip/gzip.go Compress/Decompress (hand-written Gallina mirror)",
